@@ -43,7 +43,7 @@ class DiffIntermediate:
         fr = Frame(A=A, B=B, ea=ea, eb=eb)
         out = mod._compute_differential_operator_integrals_intermediate(od, A, am, ea, B, bm, eb)
         fr.check(M, "diff_intermediate", out)
-        M.true("diff_intermediate/shape", tuple(out.shape) == (od + 1, bm + 1, am + 1, 3, Kb, Ka), str(out.shape))
+        out = M.shaped("diff_intermediate/shape", out, (od + 1, bm + 1, am + 1, 3, Kb, Ka))
         sA, sB, sa, sb = map(M.to_spec, (A, B, ea, eb))
         for pa in range(Ka):
             for pb in range(Kb):
@@ -157,7 +157,7 @@ class KineticBlock(BlockBase):
         return M.mods["gbasis.integrals.kinetic_energy"].KineticEnergyIntegral.construct_array_contraction(s1, s2), None
 
     def check(self, M, out, sa, sb, extra):
-        M.true("kinetic_block/shape", tuple(out.shape) == (sa.M, sa.L, sb.M, sb.L), str(out.shape))
+        out = M.shaped("kinetic_block/shape", out, (sa.M, sa.L, sb.M, sb.L))
         for idx, v in basisfn.kinetic_block(M.SF, sa, sb).items():
             M.eq("kinetic_block/out" + tag(idx), out[idx], v)
 
@@ -173,7 +173,7 @@ class MomentumBlock(BlockBase):
         return M.mods["gbasis.integrals.momentum"].MomentumIntegral.construct_array_contraction(s1, s2), None
 
     def check(self, M, out, sa, sb, extra):
-        M.true("momentum_block/shape", tuple(out.shape) == (sa.M, sa.L, sb.M, sb.L, 3), str(out.shape))
+        out = M.shaped("momentum_block/shape", out, (sa.M, sa.L, sb.M, sb.L, 3))
         for ax in range(3):
             for idx, v in basisfn.momentum_block(M.SF, sa, sb, ax).items():
                 M.eq("momentum_block/out" + tag(idx + (ax,)), out[idx + (ax,)], v)
@@ -208,7 +208,7 @@ class AngMomBlock(BlockBase):
         out = M.mods["gbasis.integrals.angular_momentum"].AngularMomentumIntegral.construct_array_contraction(s1, s2)
         fr.check(M, "angmom_block", out)
         sa, sb = spec_of_shell(M, s1), spec_of_shell(M, s2)
-        M.true("angmom_block/shape", tuple(out.shape) == (sa.M, sa.L, sb.M, sb.L, 3), str(out.shape))
+        out = M.shaped("angmom_block/shape", out, (sa.M, sa.L, sb.M, sb.L, 3))
         zero = [M.SF.num(0)] * 3
         for ax in range(3):
             for idx, v in basisfn.angmom_block(M.SF, sa, sb, ax, zero).items():
@@ -262,7 +262,7 @@ class MomentBlock:
         out = mom.Moment.construct_array_contraction(s1, s2, C, orders)
         fr.check(M, "moment_block", out)
         sa, sb = spec_of_shell(M, s1), spec_of_shell(M, s2)
-        M.true("moment_block/shape", tuple(out.shape) == (sa.M, sa.L, sb.M, sb.L, len(orders)), str(out.shape))
+        out = M.shaped("moment_block/shape", out, (sa.M, sa.L, sb.M, sb.L, len(orders)))
         sC = M.to_spec(C)
         for d, o in enumerate(orders):
             for idx, v in basisfn.moment_block(M.SF, sa, sb, sC, [int(x) for x in o]).items():
@@ -307,6 +307,9 @@ class MomentLemmas:
         zero = mom.Moment.construct_array_contraction(s1, s2, C2, np.array([[0, 0, 0]]))
         S = ov.Overlap.construct_array_contraction(s1, s2)
         ssh = M.to_spec(sh)
+        zero = M.shaped("moment_lemma/shape-of-order-zero", zero, tuple(S.shape) + (1,))
+        moved = M.shaped("moment_lemma/shape-of-moved", moved, tuple(S.shape) + (1,))
+        base = M.shaped("moment_lemma/shape-of-lower-orders", base, tuple(S.shape) + (len(lower),))
         for idx in np.ndindex(*S.shape):
             M.eq("moment_lemma/order-zero-is-overlap" + tag(idx), zero[idx + (0,)], S[idx])
             tot = M.SF.num(0)
